@@ -39,6 +39,9 @@ const envChild = "C10_CHILD"
 // KnownWhat is matched by /verif/known_findings.json.
 const KnownWhat = "process panic: send on closed channel (async publish racing Unsub/UnsubAll)"
 
+// StaleWhat is matched by /verif/known_findings.json (second known finding).
+const StaleWhat = "process panic: send on closed channel (publish through a WithOnly view after Unsub/UnsubAll of its channel on the parent)"
+
 const foreignCid = 99 // a channel no PubSub of the scenario ever listed
 
 type Op struct {
@@ -58,6 +61,7 @@ type Scenario struct {
 	Phases  [][]int `json:"phases"` // threads released so far, per phase
 	Slow    uint64  `json:"slow"`   // != 0: receivers dawdle (seeded) before each receive
 	Explore bool    `json:"explore"`
+	Stale   bool    `json:"stale,omitempty"` // stale-view family: WithOnly, then Unsub/UnsubAll on the parent, then a publish through the view
 	Desc    string  `json:"desc"`
 }
 
@@ -595,8 +599,37 @@ func build(p Params) Scenario {
 	return sc
 }
 
+// buildStale: s := SubBuf(b); v := WithOnly(s); Unsub(s) or UnsubAll() on the parent; a publish through v.
+// threads: 0 setup, 1 WithOnly, 2 the parent's Unsub/UnsubAll, 3 publish on the view, 4 final UnsubAll, 5 receiver
+func buildStale(b int, all, slice bool, w string, timeout int64) Scenario {
+	sc := Scenario{Timeout: timeout, CbSet: true, Stale: true}
+	mid := Op{Op: "unsub", Sub: 0}
+	if all {
+		mid = Op{Op: "unsuball"}
+	}
+	pub := Op{Op: "pub1", W: w, Obj: 1, Evs: []int{31}}
+	if slice {
+		pub = Op{Op: "pubs", W: w, Obj: 1, Evs: []int{31, 32}}
+	}
+	sc.Progs = [][]Op{{{Op: "subbuf", Size: b}}, {{Op: "withonly", Sub: 0}}, {mid}, {pub}, {{Op: "unsuball"}}, {{Op: "range", Sub: 0}}}
+	sc.Phases = [][]int{{0}, {0, 1}, {0, 1, 5}, {0, 1, 5, 2}, {0, 1, 5, 2, 3}, {0, 1, 5, 2, 3, 4}}
+	sc.Desc = fmt.Sprintf("stale view: SubBuf(%d); WithOnly; all=%v; slice=%v %s through the view; timeout=%d", b, all, slice, w, timeout)
+	return sc
+}
+
 func run(c *core.Ctx) {
 	var scs []Scenario
+	// second known finding: a publish through a WithOnly view after the parent removed its channel (every run)
+	for b := 0; b <= 1; b++ {
+		for _, all := range []bool{false, true} {
+			for _, slice := range []bool{false, true} {
+				for _, w := range kinds {
+					scs = append(scs, buildStale(b, all, slice, w, 0))
+				}
+			}
+		}
+	}
+	scs = append(scs, buildStale(0, false, false, "Sync", 2000000), buildStale(1, true, true, "Wait", 2000000))
 	// grid: subscribers x buffer x variant x timeout x receiver mode x middle action
 	type midT struct {
 		mid  string
@@ -750,6 +783,7 @@ type pubCall struct {
 	kind         string
 	evs          []int
 	targets      []int
+	stale        bool // made through a view that lists a channel the parent has already removed (closed)
 }
 
 // reference walks the threads in release order (non-receiver threads are
@@ -803,6 +837,13 @@ func refOf(sc Scenario) *reference {
 					nobj++
 				case "pub1", "pubs":
 					pc := pubCall{thread: t, call: ci, kind: op.W, evs: op.Evs, targets: append([]int{}, subsOf(op.Obj)...)}
+					if op.Obj != 0 {
+						for _, s := range pc.targets {
+							if _, gone := rf.closedBy[s]; gone {
+								pc.stale = true
+							}
+						}
+					}
 					rf.pubs = append(rf.pubs, pc)
 					for _, ev := range op.Evs {
 						for _, s := range pc.targets {
@@ -932,13 +973,22 @@ func judge(c *core.Ctx, sc Scenario, o Outcome) {
 		if len(st) > 1200 {
 			st = st[:1200] + "..."
 		}
-		if knownPanic(sc, rf, o) && strings.Contains(msg, "send on closed channel") {
+		if stalePanic(sc, rf, o) && strings.Contains(msg, "send on closed channel") {
+			c.Count("known_finding_stale_view_panics")
+			c.Fail(StaleWhat, detail(msg))
+			emit(c, sc, o, true)
+		} else if knownPanic(sc, rf, o) && strings.Contains(msg, "send on closed channel") {
 			c.Count("known_finding_panics")
 			c.Fail(KnownWhat, detail(msg))
 			emit(c, sc, o, true)
 		} else {
 			c.Fail("process panic on a path where no asynchronous hand-off was pending at an Unsub/UnsubAll: "+msg, detail(st))
 		}
+		return
+	}
+	if sc.Stale {
+		// the stale-view defect did not show (repaired some day?): nothing to report, nothing to compare
+		c.Count("stale_view_no_panic")
 		return
 	}
 	if len(o.Snaps) == 0 {
@@ -1080,6 +1130,31 @@ func judge(c *core.Ctx, sc Scenario, o Outcome) {
 		return
 	}
 	emit(c, sc, o, false)
+}
+
+// stalePanic: the process died in the phase that released a publish made
+// through a WithOnly view one of whose channels the parent had already removed
+// (the Unsub/UnsubAll had returned at the last quiescent point).
+func stalePanic(sc Scenario, rf *reference, o Outcome) bool {
+	if len(o.Snaps) == 0 {
+		return false
+	}
+	s := o.Snaps[len(o.Snaps)-1]
+	next := s.Phase + 1
+	if next >= len(sc.Phases) {
+		return false
+	}
+	for _, p := range rf.pubs {
+		if !p.stale || !releasedBy(sc, p.thread, next) || releasedBy(sc, p.thread, s.Phase) {
+			continue
+		}
+		for _, ch := range p.targets {
+			if cb, gone := rf.closedBy[ch]; gone && len(s.Rets[cb[0]]) > cb[1] {
+				return true
+			}
+		}
+	}
+	return false
 }
 
 // knownPanic: the scenario closes a channel (Unsub/UnsubAll) while a hand-off
